@@ -1,7 +1,7 @@
 #!/usr/bin/env python3
 """Regenerates /verif/MANIFEST.json. DONE lists the properties whose checks are registered."""
 import json, sys
-DONE = ["C09", "C10", "C13", "C14", "C15", "C16"]
+DONE = ["C09", "C10", "C13", "C14", "C15", "C16", "C20"]
 
 NA = {
 "C01":"crash-freedom over all programs x points is a pure function of (script text, point); no schedule, clock, fault instant or history for a simulator to own - deciding it is input generation (fuzzing), a different technique",
